@@ -122,11 +122,12 @@ def _other_exc(msg: str) -> Exception:
         return RuntimeError(msg)
 
 
-def op_for(kind: str, res_initial: Optional[Dict[str, Any]] = None) -> Dict[str, Any]:
+def op_for(kind: str, config: str = "default") -> Dict[str, Any]:
     if kind == "append":
         return {"kind": "append", "rows": [{"x": 100}]}
     if kind == "expire":
-        return {"kind": "expire", "cutoff": 1_700_000_000_000 + 15}
+        # default table: between its two snapshots; configured histories: everything but the current snapshot is old enough
+        return {"kind": "expire", "cutoff": 1_700_000_000_000 + (15 if config == "default" else 10_000)}
     if kind == "delete_snapshot":
         return {"kind": "delete_snapshot", "which": "old"}
     if kind == "delete_current":
@@ -226,7 +227,7 @@ class OsFsyncFault:
 
 
 def run_one(ctx, backend: str, opkind: str, style: str, inject=None, config: str = "default") -> P.CaseResult:
-    op = op_for(opkind)
+    op = op_for(opkind, config)
     op["style"] = style
     case = {"ops": [op], "clock": "tick", "backend": backend, "lock": "grant_all" if backend != "local" else "real",
             "yield_filter": all_yield}
@@ -650,7 +651,10 @@ def run(ctx) -> None:
         if ok != 1:
             bad.append(dict(where, rejected_event_index=code, events=evs[max(0, code - 4):code + 1]))
             continue
-        impl_post = "error" not in res.final and sig(res.final) == post and detail != "noop"
+        # post-state for the MODEL comparison = the pointer moved (on a history where the operation changes nothing a reader sees --
+        # an expiry with nothing to expire -- the signatures of pre- and post-state coincide)
+        impl_post = "error" not in res.final and detail != "noop" and (
+            res.final.get("pointer") != res.initial.get("pointer") if sig(res.initial) == post else sig(res.final) == post)
         impl_code = 1 if st == "ok" else (5 if impl_post else (2 if "ConcurrentModification" in detail else 4))
         if code == 1 and impl_code == 5:
             impl_code = 1        # the call raised in post-commit bookkeeping: the protocol itself had completed successfully
@@ -661,6 +665,10 @@ def run(ctx) -> None:
             bad.append(dict(where, model="the handler of the exception that left the tail keeps the transaction's files",
                             impl="files were deleted by Transaction._rollback after the exception left the tail"))
     ctx.correspondence("fault-trace", total - reuse_runs[0], bad)
+    if os.environ.get("C04_DUMP_DISAGREEMENTS"):
+        import json
+        with open(os.environ["C04_DUMP_DISAGREEMENTS"], "w") as fh:
+            json.dump(bad, fh, default=str, indent=1)
     # ---- the calls a real commit issues after its flip are a word of the regenerated tail; an Exception injected at one of
     # them reaches the caller only if the tail has an unguarded call of that kind
     tkeys: Dict[Tuple[Any, ...], str] = {}
